@@ -23,6 +23,8 @@ class C01(PipelineProp):
         if rng.random() < 0.3:
             inp, ptx = P.gen_straddle(rng)
             return {"gen": "straddle", "input": inp, "pretext": ptx, "prefix": "SUPER_"}
+        if rng.random() < 0.04:
+            return P.gen_primary_3hap(rng)
         inp = P.gen_input(rng)
         if rng.random() < 0.08:
             # haplotype tags that differ only in characters a file name would not keep apart
